@@ -265,6 +265,9 @@ fn env_step(
         ));
     }
     if plan.monitor {
+        if step % 1000 == 0 {
+            env_log(&format!("steps {step}"));
+        }
         let addr = env as *const Env as usize;
         MON_LAST.with(|m| {
             let mut m = m.borrow_mut();
@@ -278,14 +281,9 @@ fn env_step(
             }
             *m = Some((addr, env.ticks));
         });
-        if let Some(limit) = env.tick_limit {
-            if env.ticks > limit {
-                env_log(&format!(
-                    "MONITOR-VIOLATION step executed with ticks {} > tick_limit {limit}",
-                    env.ticks
-                ));
-            }
-        }
+        // (whether a step with ticks >= tick_limit is *executed* cannot be seen here: the
+        // evaluator's own limit check follows this hook.  The controller bounds the total
+        // number of steps instead, from the `steps N` lines.)
         if let Some(limit) = env.stack_limit {
             if env.stack.0.len() > limit + 1 {
                 env_log(&format!(
